@@ -196,7 +196,7 @@ pub fn op_count(a: &Ast) -> usize {
 /// bound of the sizing probe (states of the derivative automaton in a scratch manager)
 pub const PROBE_CAP: usize = 600;
 
-fn copy_term(
+pub fn copy_term(
     r: RegLan,
     m: &mut aws_smt_strings::regular_expressions::ReManager,
     memo: &mut HashMap<usize, RegLan>,
@@ -315,4 +315,15 @@ pub fn alien_points(r: RegLan, alpha: &Alphabet, out: &mut Vec<u32>, seen: &mut 
         }
         _ => {}
     }
+}
+
+/// the same term rebuilt on a manager without any history
+pub fn fresh_copy(r: RegLan) -> Option<(aws_smt_strings::regular_expressions::ReManager, RegLan)> {
+    crate::calls::guarded(|| {
+        let mut m = aws_smt_strings::regular_expressions::ReManager::new();
+        let mut memo = HashMap::new();
+        let c = copy_term(r, &mut m, &mut memo);
+        (m, c)
+    })
+    .ok()
 }
